@@ -91,6 +91,20 @@ pub struct Zeta {
     z: i32,
 }
 
+/** Block doc followed by a line doc
+
+(an empty line above, two doc attributes in all) */
+/// the line doc
+#[derive(TS)]
+#[ts(export_to = "shared.ts")]
+pub struct Eta {
+    /** field block doc
+
+    with an empty line */
+    /// and a line
+    e: i32,
+}
+
 // ---- one type per file, in sub directories, depending on each other ---------------------------
 #[derive(TS)]
 #[ts(export_to = "sub/")]
@@ -220,6 +234,7 @@ pub fn entries() -> Vec<Entry> {
         entry!("Beta", Beta),
         entry!("alpha2", alpha2),
         entry!("Gamma", Gamma),
+        entry!("Eta", Eta),
         entry!("Delta", Delta),
         entry!("Zeta", Zeta),
         entry!("Leaf", Leaf),
